@@ -129,6 +129,17 @@ func c10Apply(s *c10State, f []string) string {
 	case "mfrmlocal":
 		ok := m.RemoveLocalForwardRoute(c09Str(f[1]))
 		return fmt.Sprintf("%v ; %s", ok, c09FDump(m.ForwardTable()))
+	case "mddisc":
+		return fmt.Sprintf("%d ; %s", m.HandlePeerDisconnectDomain(c08ID(c08U(f[1]))), c09DDump(m.DomainTable()))
+	case "mfdisc":
+		return fmt.Sprintf("%d ; %s", m.HandlePeerDisconnectForward(c08ID(c08U(f[1]))), c09FDump(m.ForwardTable()))
+	case "madisc":
+		return fmt.Sprintf("%d ; %s", m.HandlePeerDisconnectAgent(c08ID(c08U(f[1]))), c09ADump(m.AgentTable()))
+	case "mnext":
+		if nh, ok := m.LookupNextHop(net.IP(unhexTok(f[1]))); ok {
+			return fmt.Sprintf("next %d", c08Num(nh))
+		}
+		return "none"
 	case "mdisc":
 		return fmt.Sprintf("%d ; %s", m.HandlePeerDisconnect(c08ID(c08U(f[1]))), c08Dump(m.Table()))
 	case "mclean":
@@ -272,8 +283,91 @@ func c10GenLocals(w *bufio.Writer, r *rng) {
 	}
 }
 
+// c10GenSpellings: c08GenSpellings on the Manager's own table: stored through
+// ProcessRouteAdvertise / AddLocalRoute / AddDynamicRoute, removed through ProcessRouteWithdraw /
+// RemoveLocalRoute / RemoveDynamicRoute / HandlePeerDisconnect / CleanupStaleRoutes in every
+// spelling, looked up through Manager.Lookup / LookupNextHop right before and right after.
+func c10GenSpellings(w *bufio.Writer) {
+	type fam struct {
+		spell               []string
+		hit, miss, other, o string
+	}
+	fams := []fam{
+		{c08Spell4, "0a140507", "0a150507", c08Spell6[0], "20010db8000500000000000000000009"},
+		{c08Spell6, "20010db8000500000000000000000009", "20010db8000600000000000000000009", c08Spell4[0], "0a140507"},
+	}
+	for _, f := range fams {
+		for _, store := range f.spell {
+			for _, wd := range f.spell {
+				for _, kind := range []string{"adv-wd", "adv-disc", "adv-clean", "local", "dyn"} {
+					fmt.Fprintln(w, "reset 1")
+					fmt.Fprintf(w, "madv 3 4 1 3.4 %s 7\n", f.other)
+					switch kind {
+					case "local":
+						fmt.Fprintf(w, "mlocal %s 3\n", store)
+					case "dyn":
+						fmt.Fprintf(w, "mdyn %s 3\n", store)
+					default:
+						fmt.Fprintf(w, "madv 2 5 1 2.5 %s 3\n", store)
+					}
+					fmt.Fprintf(w, "mlook %s\nmlook %s\nmnext %s\nmlook %s\n", f.hit, f.miss, f.hit, f.o)
+					switch kind {
+					case "adv-wd":
+						fmt.Fprintf(w, "mwd 5 %s\n", wd)
+					case "adv-disc":
+						fmt.Fprintln(w, "mdisc 2")
+					case "adv-clean":
+						fmt.Fprintf(w, "mage 3\nmadv 3 4 2 3.4 %s 7\nmclean 1\n", f.other)
+					case "local":
+						fmt.Fprintf(w, "mrmlocal %s\n", wd)
+					default:
+						fmt.Fprintf(w, "mrmdyn %s\n", wd)
+					}
+					fmt.Fprintf(w, "mlook %s\nmlook %s\nmnext %s\nmlook %s\nmlook %s\n", f.hit, f.hit, f.hit, f.miss, f.o)
+					fmt.Fprintf(w, "madv 2 5 2 2.5 %s 3\nmlook %s\nmnext %s\n", wd, f.hit, f.hit)
+				}
+			}
+		}
+	}
+}
+
+// c10GenDisconnect: what Agent.handlePeerDisconnect does - HandlePeerDisconnect, ...Domain,
+// ...Forward, ...Agent, in that order - on tables where every destination is reachable through two
+// or three peers (same origin, different next hops in the agent table; different origins behind
+// different peers elsewhere). Each peer in turn goes down: best path first, worst path first.
+func c10GenDisconnect(w *bufio.Writer, r *rng) {
+	hx := func(s string) string { return hexTok([]byte(s)) }
+	for _, order := range [][]int{{4, 3, 2}, {2, 3, 4}, {3, 2, 4}, {3, 4, 2}} {
+		fmt.Fprintln(w, "reset 1")
+		for _, ag := range []int{7, 8} {
+			for i, nh := range []int{2, 3, 4} {
+				// agent `ag` announces itself (origin = ag); we hear it through three neighbours, metric grows with the peer number
+				fmt.Fprintf(w, "maadv %d %d 1 %d.%d %d %d\n", nh, ag, nh, ag, ag, 1+2*i)
+				fmt.Fprintf(w, "madv %d %d 1 %d.%d 0a140000 16 32 %d\n", nh, ag+10*i, nh, ag, 1+2*i)
+				fmt.Fprintf(w, "mdadv %d %d 1 %d.%d %s %d\n", nh, ag+10*i, nh, ag, hx("*.Corp.example"), 1+2*i)
+				fmt.Fprintf(w, "mfadv %d %d 1 %d.%d %s %s %d\n", nh, ag+10*i, nh, ag, hx("web"), hx("h:1"), 1+2*i)
+			}
+		}
+		fmt.Fprintf(w, "mlocal 0a140000 16 32 9\nmdlocal %s 9\nmflocal %s %s 9\n", hx("*.corp.example"), hx("web"), hx("h:2"))
+		looks := func() {
+			fmt.Fprintf(w, "malook 7\nmalook 8\naroutes 7\nmlook 0a140101\nmnext 0a140101\nmdlook %s\nmflook %s\n", hx("x.corp.EXAMPLE"), hx("web"))
+		}
+		looks()
+		for _, p := range order {
+			fmt.Fprintf(w, "mdisc %d\nmddisc %d\nmfdisc %d\nmadisc %d\n", p, p, p, p)
+			looks()
+			if r.chance(30) { // the peer comes back with a newer sequence
+				fmt.Fprintf(w, "maadv %d 7 2 %d.7 7 %d\n", p, p, r.intn(6))
+				looks()
+			}
+		}
+	}
+}
+
 func c10Gen(w *bufio.Writer, seed int64, tier string) {
 	r := newRng(c08Mix(seed ^ 0x10))
+	c10GenSpellings(w)
+	c10GenDisconnect(w, r)
 	locals := 4
 	if tier == "thorough" {
 		locals = 80
